@@ -200,6 +200,16 @@ func (l *irLoader) compileFilterFuncs(filename string, irfile *ir.File) error {
 		return fmt.Errorf("parse custom decls: %w", err)
 	}
 
+	// Calls are bound by name while a function is being compiled.
+	// Unbind the names this file declares, so a call that precedes the
+	// declaration is reported instead of being silently bound to an
+	// equal-named function of some previously loaded file.
+	for _, decl := range f.Syntax.Decls {
+		if decl, ok := decl.(*ast.FuncDecl); ok {
+			l.state.env.RemoveFunc(f.Pkg.Path(), decl.Name.String())
+		}
+	}
+
 	for _, decl := range f.Syntax.Decls {
 		decl, ok := decl.(*ast.FuncDecl)
 		if !ok {
